@@ -238,6 +238,15 @@ func NewPlaintextFormatterHook(key []byte) (*PlaintextFormatterHook, error) {
 // PreFormat handler adds (if necessary) "end of chain" marker to the entry in order
 // to cryptographically bound it to the integrity computation
 func (h *JSONFormatterHook) PreFormat(entry *log.Entry) error {
+	// "integrity" and "chain" are the keys the audit log itself adds to the entry. Fields of the entry with the same
+	// names would be overwritten by them after the integrity check is calculated (or taken for them by the verifier),
+	// so they are moved out of the way like logrus does it with fields that clash with its own keys.
+	for _, key := range []string{IntegrityKey, AuditLogChainKey} {
+		if value, ok := entry.Data[key]; ok {
+			delete(entry.Data, key)
+			entry.Data["fields."+key] = value
+		}
+	}
 	// we add EndOfChain marker into entry in pre-format stage because it should be cryptographically bounded to the log entry
 	if strings.EqualFold(entry.Message, EndOfAuditLogChainMessage) {
 		entry.Data[AuditLogChainKey] = EndAuditLogChainValue
